@@ -136,6 +136,26 @@ def publicKeyHash (s : Bytes) : Chk PKHRes :=
 inductive InscRes | ok (prefix_ : Bytes) (contentType : Bytes) (data : Bytes) | errDecode | errNotFound
   deriving Repr, DecidableEq
 
+/-- the loop of ParseInscription that walks the first twelve parts next to the script bytes: the offset of the
+    opcode each part came from, and whether parts 9 / 11 (content type / payload) came from OP_0.
+    `i` is the index of the next part, `off` the script offset, the Booleans the flags found so far.
+    Reading `parts[i]` is Go's `p[i]` (`none` = panic); the script access is guarded by `off < len`. -/
+def inscZeroFlags (s : Bytes) (parts : List Bytes) : Nat → Nat → Nat → Bool → Bool → Chk (Bool × Bool)
+  | 0, _, _, z9, z11 => some (z9, z11)
+  | fuel + 1, i, off, z9, z11 =>
+    if i > 11 || off ≥ s.length then some (z9, z11) else do
+      let op ← s[off]?
+      let p ← parts[i]?
+      let z9 := z9 || (op == 0x00 && i == 9)
+      let z11 := z11 || (op == 0x00 && i == 11)
+      let step :=
+        if op == opPUSHDATA1 then 2 + p.length
+        else if op == opPUSHDATA2 then 3 + p.length
+        else if op == opPUSHDATA4 then 5 + p.length
+        else if 0x01 ≤ op.toNat && op.toNat ≤ 0x4b then 1 + p.length
+        else 1
+      inscZeroFlags s parts fuel (i + 1) (off + step) z9 z11
+
 /-- Script.ParseInscription (Slice(0,25) is guarded by a length check) -/
 def parseInscription (s : Bytes) : Chk InscRes :=
   let (parts, ok) := decodeParts s
@@ -145,6 +165,7 @@ def parseInscription (s : Bytes) : Chk InscRes :=
     else
       let ct ← parts[9]?
       let d ← parts[11]?
-      pure (.ok (s.take 25) ct d)
+      let (z9, z11) ← inscZeroFlags s parts 12 0 0 false false
+      pure (.ok (s.take 25) (if z9 then [] else ct) (if z11 then [] else d))
 
 end GoBT.Script
